@@ -30,6 +30,8 @@ pub enum Op {
     DeliverAll(u16),
     /// the answer to a request the client has cancelled meanwhile arrives anyway (it was in flight)
     DeliverCancelled(u16),
+    /// every peer with something outstanding (or in flight after a choke) delivers one block, all within one barrier
+    DeliverAllPeersAtOnce,
     Disconnect(u16),
 }
 
@@ -55,6 +57,7 @@ fn strategy() -> BoxedStrategy<Case> {
         6 => any::<u16>().prop_map(Op::Deliver),
         3 => any::<u16>().prop_map(Op::DeliverAll),
         2 => any::<u16>().prop_map(Op::DeliverCancelled),
+        2 => Just(Op::DeliverAllPeersAtOnce),
         1 => any::<u16>().prop_map(Op::Disconnect),
     ];
     // scenario templates that reach deep states; random ops follow
@@ -64,12 +67,15 @@ fn strategy() -> BoxedStrategy<Case> {
         1 => Just(vec![Op::Join(5), Op::Join(5), Op::Unchoke(0), Op::ChokeKeep(0), Op::Unchoke(65535), Op::Unchoke(0)]),
         1 => Just(vec![Op::Join(5), Op::Join(7), Op::Unchoke(0), Op::ChokeKeep(0), Op::Unchoke(65535)]),
         1 => Just(vec![Op::Join(0), Op::Join(0), Op::Unchoke(0), Op::Unchoke(65535), Op::ChokeKeep(0), Op::Deliver(0)]),
+        // the same piece completes twice: the first fetcher chokes with the block in flight, a second peer takes the piece
+        // over, both blocks arrive in the same barrier
+        2 => Just(vec![Op::Join(5), Op::Join(5), Op::Unchoke(0), Op::ChokeKeep(0), Op::Unchoke(65535), Op::DeliverAllPeersAtOnce, Op::Join(0), Op::Join(2), Op::Unchoke(65535), Op::Unchoke(40000)]),
         // end game: two interested peers fetch the same pieces; one finishes first, the other's answer is already in flight
         1 => Just(vec![Op::Join(0), Op::Join(0), Op::Interested(0), Op::Interested(65535), Op::Unchoke(0), Op::Unchoke(65535)]),
         // a peer in the middle of a download sends a second, empty bitfield and then announces pieces one by one
         1 => Just(vec![Op::Join(0), Op::Unchoke(0), Op::Bitfield(0, 1)]),
     ];
-    (prop_oneof![3usize..=16, 11usize..=16], prop_oneof![Just(1usize), 1usize..=64], template, vec(op, 0..80), any::<u64>())
+    (prop_oneof![3 => 3usize..=16, 2 => 11usize..=16, 2 => 10usize..=12], prop_oneof![Just(1usize), 1usize..=64], template, vec(op, 0..80), any::<u64>())
         .prop_map(|(pieces, piece_len, mut pre, ops, seed)| {
             pre.extend(ops);
             Case { pieces, piece_len, ops: pre, seed }
@@ -400,6 +406,15 @@ fn check_all(c: &Case) -> Outcome {
                         if !with_req.is_empty() {
                             let p = with_req[idx(*p, with_req.len())];
                             while net.answer(w, p, 0).is_some() {}
+                        }
+                    }
+                    Op::DeliverAllPeersAtOnce => {
+                        let with_req: Vec<usize> = live.iter().copied().filter(|p| !net.peers[*p].view.outstanding.is_empty()).collect();
+                        if with_req.len() >= 2 {
+                            classes.push("several-peers-deliver-in-one-barrier");
+                        }
+                        for p in with_req {
+                            net.answer(w, p, 0);
                         }
                     }
                     Op::DeliverCancelled(p) => {
